@@ -22,6 +22,7 @@ import (
 	"github.com/tikv/pd/server/config"
 	"github.com/tikv/pd/server/core"
 	"github.com/tikv/pd/server/schedule/placement"
+	"github.com/tikv/pd/server/versioninfo"
 
 	_ "verifharness/internal/quiet"
 	"verifharness/internal/rng"
@@ -557,6 +558,58 @@ func (w *world) exec(op string) (res string) {
 	case f[0] == "cver" && len(f) == 3:
 		mask(f[2])
 		return classify(svr.SetClusterVersion(undash(f[1])))
+	case f[0] == "foreign" && len(f) == 3:
+		// another member was leader meanwhile: its own options object (reloaded from the same kv through its own
+		// Storage), one section replaced, persisted; its writes by-pass the failure wrapper
+		cfg := config.NewConfig()
+		if err := cfg.Adjust(nil, false); err != nil {
+			panic(err)
+		}
+		other := config.NewPersistOptions(cfg)
+		st := core.NewStorage(w.fkv.Base)
+		if err := other.Reload(st); err != nil {
+			return classify(err)
+		}
+		switch f[1] {
+		case "sched":
+			c, ok := parseSch(f[2])
+			if !ok {
+				return bad
+			}
+			other.SetScheduleConfig(c)
+		case "repl":
+			c, ok := parseRep(f[2])
+			if !ok {
+				return bad
+			}
+			other.SetReplicationConfig(c)
+		case "pdsrv":
+			c, ok := w.parsePD(f[2])
+			if !ok {
+				return bad
+			}
+			other.SetPDServerConfig(c)
+		case "lpcfg":
+			other.SetLabelPropertyConfig(parseLP(f[2]))
+		case "cver":
+			v, err := versioninfo.ParseVersion(undash(f[2]))
+			if err != nil {
+				return bad
+			}
+			other.SetClusterVersion(v)
+		case "rmode":
+			c, ok := parseRM(f[2])
+			if !ok {
+				return bad
+			}
+			other.SetReplicationModeConfig(c)
+		default:
+			return bad
+		}
+		return classify(other.Persist(st))
+	case f[0] == "reload" && len(f) == 1:
+		// this member is re-elected: server.reloadConfigFromKV = Reload on the options object that serves
+		return classify(svr.GetPersistOptions().Reload(svr.GetStorage()))
 	case f[0] == "rmode" && len(f) == 3:
 		c, ok := parseRM(f[1])
 		if !ok {
